@@ -37,6 +37,12 @@ def cTerm : List Char := "C-Term".toList
 def ionP : Key := 112
 def ionN : Key := 110
 
+/-- `TABLE[key]` of a float-valued constant table: a missing key is a KeyError -/
+def tbl (o : Option Rat) : Except Err Rat :=
+  match o with
+  | some v => pure v
+  | none => .error .keyError
+
 /-! ### adduct strings (over ASCII code points) -/
 
 /-- `sum(f(x) for x in l)` where `f` may raise -/
